@@ -127,6 +127,8 @@ func allChecks() []*Check {
 				{Pkg: "client", Func: "VerifC19Negotiation", Asserts: []string{"requests-exactly-wanted-and-advertised", "end-on-empty-intersection", "end-after-nak", "held-iff-acked", "end-after-ack-without-sasl", "not-held-after-minus-ack", "sasl-starts-after-ack-only", "sasl-payload-after-server-asked", "end-after-sasl-outcome", "end-after-later-ack"}},
 				{Pkg: "client", Func: "VerifC19History", Quick: map[string]int{"K": 2}, Thorough: map[string]int{"K": 3}, Asserts: []string{"end-after-every-reply", "held-iff-latest-ack-enabled"}, Note: "arbitrary sequences of later ACK / -cap / NAK replies against a model"},
 				{Pkg: "client", Func: "VerifC19History", Quick: map[string]int{"K": 2, "SASL": 1}, Thorough: map[string]int{"K": 2, "SASL": 1}, Asserts: []string{"end-after-every-reply", "held-iff-latest-ack-enabled"}, Note: "the same with SASL configured but never offered; replies may name -sasl"},
+				{Pkg: "client", Func: "VerifC19History", Quick: map[string]int{"K": 1, "SASL": 1, "AUTH": 1}, Thorough: map[string]int{"K": 2, "SASL": 1, "AUTH": 1}, Asserts: []string{"end-after-every-reply", "no-sasl-data-without-acknowledged-sasl"}, Note: "SASL configured but never acknowledged: the server asks for authentication data right after LS or after the last reply"},
+				{Pkg: "client", Func: "VerifC19Reconnect", Quick: map[string]int{"R": 2}, Thorough: map[string]int{"R": 3}, Asserts: []string{"reconnect:negotiation-started-once-per-connection", "reconnect:negotiation-ended-once-per-connection"}, Note: "2 (3) connections in a row on one client, real Connect/recv/send; ACK / NAK / empty intersection / SASL success, then the welcome"},
 				{Pkg: "client", Func: "VerifC19Split", Asserts: []string{"split-every-name-once", "split-names-intact-in-order", "split-line-within-limit"}},
 			},
 			Bounds:      map[string]string{"quick": "universe of 2 symbolic capability names (1..2 bytes) + sasl; every subset wanted / advertised / acknowledged, NAK, later ACK of -cap; SASL none / PLAIN / EXTERNAL with credentials of 0..1 symbolic bytes and outcomes 903/904/908 (real go-sasl clients and an exact base64 model); request splitting with 4 names of lengths 220, 216..224, 1..3, 440; histories: after LS, any 2 later replies, each an ACK naming any subset of the two capabilities plain or with '-', in either order, or a NAK of any subset, against a latest-ACK-wins model, also with SASL configured but not offered and replies that name -sasl", "thorough": "histories of 3 replies (2 in the SASL-configured variant)"},
